@@ -515,7 +515,14 @@ static void class_key(const case_t *c, const eval_t *e, const vclass_t *v, char 
     l = strlen(key);
     if (cm.perm != 0) snprintf(key + l, n - l, "|unordered");
     l = strlen(key);
-    if (slice_specific(&cm, v)) snprintf(key + l, n - l, "|only-%s", slice_name[cm.a.slice]);
+    /* whether the shape violates in this slice only goes into the description, not into the key: ECDSA signatures are
+       randomised per process, and under a defect whose effect depends on signature bytes the other slices' verdicts - and
+       with them the key - differed between two replays of one case */
+    if (slice_specific(&cm, v))
+    {
+        size_t dl = strlen(devs);
+        snprintf(devs + dl, dn - dl, " (in slice %s only)", slice_name[cm.a.slice]);
+    }
 }
 
 static void run_case(const case_t *c, mx_result_t *r)
